@@ -349,7 +349,12 @@ class Stmts:
                         keys |= {"llen", "lel"}
                         allocs = allocs or node.func.attr == "copy"
                         continue
-                    if isinstance(node.func, ast.Attribute) and node.func.attr in ("get", "keys", "values", "items", "count", "startswith"):
+                    if isinstance(node.func, ast.Attribute) and node.func.attr in ("get", "keys", "values", "items", "count", "startswith", "strip", "lstrip", "rstrip", "search", "group", "endswith", "lower", "upper"):
+                        continue
+                    if isinstance(node.func, ast.Attribute) and node.func.attr in ("splitlines", "split"):
+                        allocs = True
+                        continue
+                    if src in ("re.compile",):
                         continue
                     # user call: use contract frame if there is one, else everything
                     allocs = True
@@ -392,6 +397,7 @@ class Stmts:
         if "*" in keys:
             keys = set(s.heap.keys()) | (keys - {"*"}) | {"llen", "lel", "dhas", "dval", "dsize"}
             self.notes.append("loop body calls a function without contract: whole heap havoced")
+        self._last_havoc_keys = set(keys)
         for k in sorted(keys):
             s.heap[k] = fresh("loop_" + k, heap_sort(k))
         if allocs:
@@ -410,10 +416,56 @@ class Stmts:
         s.loop_entry = st
         return s
 
+
+    # ------------------------------------------------------------------ automatic frame invariants (Houdini over a fixed candidate set)
+    def frame_candidates(self, st: St, havoc_keys: set[str]):
+        """Candidate invariants `objects allocated before the function / before the loop keep component K`."""
+        cands = []
+        r = z3.Const("r!fr", IntS)
+        for key in sorted(havoc_keys):
+            for which, ref_state in (("function entry", st.entry), ("loop entry", st)):
+                if ref_state is None:
+                    continue
+                base = ref_state.heap.get(key, base_heap(key))
+                alloc0 = ref_state.alloc
+
+                def fn(s, key=key, base=base, alloc0=alloc0):
+                    return z3.ForAll([r], z3.Implies(z3.And(0 <= r, r < alloc0), z3.Select(s.h(key), r) == z3.Select(base, r)))
+
+                cands.append((f"[auto-frame] `{key}` of objects allocated before {which} is unchanged", fn))
+        return cands
+
+    def quick_valid(self, st: St, goal, timeout_ms: int = 1500) -> bool:
+        s = z3.Solver()
+        s.set("timeout", timeout_ms)
+        s.add(*st.pc)
+        s.add(z3.Not(goal))
+        return s.check() == z3.unsat
+
+    def houdini(self, cands, entry_st: St, make_head, run_body):
+        """Largest subset of `cands` that holds on entry and is preserved (assuming the user invariants and the subset)."""
+        kept = [c for c in cands if self.quick_valid(entry_st, c[1](entry_st))]
+        while kept:
+            saved = (len(self.vcs), len(self.raised), self.loop_counter, list(self.notes), set(self.assumptions_used))
+            try:
+                ends = run_body(make_head(kept))
+            finally:
+                del self.vcs[saved[0]:]
+                del self.raised[saved[1]:]
+                self.loop_counter = saved[2]
+                self.notes[:] = saved[3]
+            bad = [c for c in kept if not all(self.quick_valid(e, c[1](e)) for e in ends)]
+            if not bad:
+                break
+            kept = [c for c in kept if c not in bad]
+        return kept
+
     def check_invariants(self, st: St, lspec: LoopSpec, kind: str, k: int, line: int) -> None:
         spec = SpecEval(self, st, st.loc, st.entry, cur_class=self.cur_class)
         for i, inv in enumerate(lspec.invariants):
             self.emit(f"loop{k}.{kind}[{i}]", f"loop invariant ({'holds on entry' if kind == 'entry' else 'is preserved'}): {inv}", st, spec.boolean(inv), "inv-" + kind, line)
+        for i, (text, fn) in enumerate(getattr(self, "_auto_inv", {}).get(k, [])):
+            self.emit(f"loop{k}.{kind}.auto[{i}]", f"loop invariant ({'holds on entry' if kind == 'entry' else 'is preserved'}): {text}", st, fn(st), "inv-" + kind, line)
 
     def exec_while(self, s: ast.While, st: St) -> list[Out]:
         k, lspec = self.loop_spec()
@@ -424,11 +476,31 @@ class Stmts:
         before = st
         st = st.copy()
         st.loop_entry = st
+        h0 = self.havoc_for_loop(st, s.body + [ast.Expr(s.test)], set(), lspec)
+        keys = set(self._last_havoc_keys)
+
+        def make_head(auto):
+            hh = h0.copy()
+            spec = SpecEval(self, hh, hh.loc, hh.entry, cur_class=self.cur_class)
+            hh = hh.assume(*[spec.boolean(inv) for inv in lspec.invariants], *[fn(hh) for _, fn in auto])
+            hh.loop_entry = st
+            return hh
+
+        def run_body(hh):
+            ends = []
+            for s1, c in self.ev(s.test, hh):
+                t = self.truthy(c, s1)
+                for o in self.exec_block(s.body, self.narrow(s.test, s1.assume(t), True)):
+                    if o.kind in ("fall", "continue"):
+                        ends.append(o.st)
+            return ends
+
+        if not hasattr(self, "_auto_inv"):
+            self._auto_inv = {}
+        self._auto_inv[k] = []
+        self._auto_inv[k] = self.houdini(self.frame_candidates(st, keys), st, make_head, run_body) if keys else []
         self.check_invariants(st, lspec, "entry", k, s.lineno)
-        h = self.havoc_for_loop(st, s.body + [ast.Expr(s.test)], set(), lspec)
-        spec = SpecEval(self, h, h.loc, h.entry, cur_class=self.cur_class)
-        h = h.assume(*[spec.boolean(inv) for inv in lspec.invariants])
-        h.loop_entry = st
+        h = make_head(self._auto_inv[k])
         # cover: the loop head is reachable under the invariant
         self.emit(f"loop{k}.cover", "loop invariant is satisfiable (reachability)", h, z3.BoolVal(True), "cover", s.lineno, cover=True)
         outs: list[Out] = []
@@ -568,42 +640,68 @@ class Stmts:
         if live is not None and not len_may_change:
             st.ghosts["it_n"] = SV(mk_int(cur_n(st)), T.INT)
         st.loop_entry = st
-        self.check_invariants(st, lspec, "entry", k, s.lineno)
-        h = self.havoc_for_loop(st, s.body, tnames, lspec)
+        h0 = self.havoc_for_loop(st, s.body, tnames, lspec)
+        keys = set(self._last_havoc_keys)
         iv = fresh("it_i", IntS)
-        h.ghosts["it_i"] = SV(mk_int(iv), T.INT)
+        h0.ghosts["it_i"] = SV(mk_int(iv), T.INT)
         facts = [iv >= 0]
         if not len_may_change:
             if live is not None:
                 # the iterated list keeps the length it had at loop entry
-                facts.append(self.list_len(h, live) == self.list_len(st, live))
-            facts.append(iv <= cur_n(h))
-        h = h.assume(*facts)
-        spec = SpecEval(self, h, h.loc, h.entry, cur_class=self.cur_class)
-        h = h.assume(*[spec.boolean(inv) for inv in lspec.invariants])
-        h.loop_entry = st
+                facts.append(self.list_len(h0, live) == self.list_len(st, live))
+            facts.append(iv <= cur_n(h0))
+        h0 = h0.assume(*facts)
+
+        def make_head(auto):
+            hh = h0.copy()
+            spec = SpecEval(self, hh, hh.loc, hh.entry, cur_class=self.cur_class)
+            hh = hh.assume(*[spec.boolean(inv) for inv in lspec.invariants], *[fn(hh) for _, fn in auto])
+            hh.loop_entry = st
+            return hh
+
+        def iterate(hh, on_end, on_other):
+            b = hh.assume(iv < cur_n(hh))
+            b = b.copy()
+            e = it["elem"](b, iv)
+            for s1 in self.bind_target(s.target, e, b):
+                for o in self.exec_block(s.body, s1):
+                    if o.kind in ("fall", "continue"):
+                        nxt = o.st.copy()
+                        nxt.ghosts["it_i"] = SV(mk_int(iv + 1), T.INT)
+                        on_end(nxt)
+                    else:
+                        on_other(o)
+
+        def run_body(hh):
+            ends = []
+            iterate(hh, ends.append, lambda o: None)
+            return ends
+
+        if not hasattr(self, "_auto_inv"):
+            self._auto_inv = {}
+        self._auto_inv[k] = []
+        self._auto_inv[k] = self.houdini(self.frame_candidates(st, keys), st, make_head, run_body) if keys else []
+        self.check_invariants(st, lspec, "entry", k, s.lineno)
+        h = make_head(self._auto_inv[k])
         if lspec.invariants:
             self.emit(f"loop{k}.cover", "loop invariant is satisfiable (reachability)", h, z3.BoolVal(True), "cover", s.lineno, cover=True)
         outs: list[Out] = []
         # exit
         ex = h.assume(iv >= cur_n(h))
         outs.append(Out("fall", self.after_loop(ex, before)))
-        # one iteration
-        b = h.assume(iv < cur_n(h))
-        b = b.copy()
-        e = it["elem"](b, iv)
-        for s1 in self.bind_target(s.target, e, b):
-            for o in self.exec_block(s.body, s1):
-                if o.kind in ("fall", "continue"):
-                    nxt = o.st.copy()
-                    nxt.ghosts["it_i"] = SV(mk_int(iv + 1), T.INT)
-                    self.check_invariants(nxt, lspec, "preserve", k, s.lineno)
-                    if live is not None and not len_may_change:
-                        self.emit(f"loop{k}.len-stable", "the iterated list keeps its length during the loop", nxt, self.list_len(nxt, live) == self.list_len(st, live), "inv-preserve", s.lineno)
-                elif o.kind == "break":
-                    outs.append(Out("fall", self.after_loop(o.st, before)))
-                else:
-                    outs.append(o)
+
+        def on_end(nxt):
+            self.check_invariants(nxt, lspec, "preserve", k, s.lineno)
+            if live is not None and not len_may_change:
+                self.emit(f"loop{k}.len-stable", "the iterated list keeps its length during the loop", nxt, self.list_len(nxt, live) == self.list_len(st, live), "inv-preserve", s.lineno)
+
+        def on_other(o):
+            if o.kind == "break":
+                outs.append(Out("fall", self.after_loop(o.st, before)))
+            else:
+                outs.append(o)
+
+        iterate(h, on_end, on_other)
         return outs
 
     def bind_target(self, tgt: ast.expr, e, st: St) -> list[St]:
